@@ -18,7 +18,7 @@ pub fn info() -> PropInfo {
     PropInfo {
         id: "C14",
         level: "exploration",
-        rule: "bounded-exhaustive: every ordered sequence of <=3 (quick: 2) distinct tag names from {all strings over {A,B} of length 1..3, and the empty name} created and stored with contents from {'', 'v', another tag's name, 'l1\\nl2', 'l1\\r\\nl2\\n'}, then injected into every target line over {A,B,x,é} up to length 5 (quick 4; thorough: 6 for one name, 5 for two, 4 for three) and into a fixed line containing every name; plus seeded random create/store/inject sequences; plus generated whole files (create/store/use/error orders, tail lines, no-output directives) judged by the reference model. Each case runs on several fresh TagStates (fresh hash seeds). Non-trivial = at least one tag stored and the target line contains a tag name, or a create is rejected; distinct = distinct (names, contents, line) / op sequence / file.",
+        rule: "bounded-exhaustive: every ordered sequence of <=3 (quick: 2) distinct tag names from {all strings over {A,B} of length 1..3, the empty name, and the multi-byte names é, éA, Aé, éé} created and stored with contents from {'', 'v', another tag's name, 'l1\\nl2', 'l1\\r\\nl2\\n'}, then injected into every target line over {A,B,x,é} up to length 5 (quick 4; thorough: 6 for one name, 5 for two, 4 for three) and into a fixed line containing every name; plus seeded random create/store/inject sequences; plus generated whole files (create/store/use/error orders, tail lines, no-output directives) judged by the reference model. Each case runs on several fresh TagStates (fresh hash seeds). Non-trivial = at least one tag stored and the target line contains a tag name, or a create is rejected; distinct = distinct (names, contents, line) / op sequence / file.",
         assumptions: &["reference tag store (harness/src/model.rs TagStore) is a faithful reading of the statement", "line endings LF and CRLF only"],
         floor: (20_000, 200_000),
         shards: (16, 16),
@@ -33,6 +33,10 @@ fn names() -> Vec<String> {
         for k in 0..(1 << len) {
             v.push((0..len).map(|i| if (k >> i) & 1 == 0 { 'A' } else { 'B' }).collect());
         }
+    }
+    // multi-byte names: prefix relations and overlaps must be decided on characters, not bytes
+    for n in ["\u{e9}", "\u{e9}A", "A\u{e9}", "\u{e9}\u{e9}"] {
+        v.push(n.to_string());
     }
     v
 }
@@ -256,6 +260,9 @@ fn run(ctx: &mut Ctx) {
                 ops.push(Op::Inject(fixed_line.clone()));
                 let key = hash_str(&format!("{seq:?}|{ci}|{l}|{le}"));
                 check_ops(ctx, &ops, le, reps, key);
+                if k >= 2 && ci == 7 && li == 9 {
+                    ctx.sample(|| json!({"ops": ops.iter().map(op_json).collect::<Vec<_>>(), "le": le, "reference_results": differential(&ops, le).map(|r| r.1).unwrap_or_default()}));
+                }
                 if ctx.violations.len() >= 20 {
                     break 'outer;
                 }
@@ -274,9 +281,9 @@ fn run(ctx: &mut Ctx) {
     // ---- seeded random op sequences
     let mut rng = StdRng::seed_from_u64(ctx.shard_seed());
     let nrand = ctx.tier.pick(20_000, 300_000);
-    let pool_names = ["A", "B", "AB", "BA", "ABA", "BAB", "AA", "", "x", "TAG", "TAG1"];
+    let pool_names = ["A", "B", "AB", "BA", "ABA", "BAB", "AA", "", "x", "TAG", "TAG1", "\u{e9}", "\u{e9}A", "A\u{e9}"];
     let pool_content = ["", "v", "A", "AB", "l1\nl2", "l1\r\nl2\n", "\n", "B A"];
-    let pool_lines = ["", "A", "AB", "ABA", "BAB", "xAx", "ABAB", "A B AB BA", "TAG1TAG", "\u{e9}A\u{e9}B", "AAB", "BBA"];
+    let pool_lines = ["", "A", "AB", "ABA", "BAB", "xAx", "ABAB", "A B AB BA", "TAG1TAG", "\u{e9}A\u{e9}B", "AAB", "BBA", "A\u{e9}A", "\u{e9}\u{e9}A"];
     for i in 0..nrand {
         let n = rng.gen_range(1..=8);
         let ops: Vec<Op> = (0..n)
@@ -300,7 +307,6 @@ fn run(ctx: &mut Ctx) {
         let src = gen_tag_file(&mut rng);
         check_file(ctx, &src, i % 2 == 0);
     }
-    ctx.sample(|| json!({"ops": [{"create": "AB"}, {"store": "BA"}, {"create": "BA"}, {"store": "l1\nl2"}, {"inject": "xABAx"}, {"inject": fixed_line}], "le": "\n"}));
 }
 
 /// whole-file tag scenario generator: create / store / use / error orders, tail lines,
